@@ -126,7 +126,11 @@ func ResolveStateConflictsV2(
 
 	// Get the full conflicted set, that is the conflicted events and the
 	// auth difference (events that don't appear in all auth chains).
-	fullConflictedSet := append(conflicted, r.calculateAuthDifference()...)
+	// (Into a list of its own: appending to the caller's slice would write
+	// into whatever follows it in its backing array.)
+	authDifference := r.calculateAuthDifference()
+	fullConflictedSet := make([]PDU, 0, len(conflicted)+len(authDifference))
+	fullConflictedSet = append(append(fullConflictedSet, conflicted...), authDifference...)
 
 	// The full power set function returns the event and all of its auth
 	// events that also happen to appear in the conflicted set. This will
